@@ -355,3 +355,29 @@ Proof.
   split; [rewrite T; apply (denote_charge c da db Hd)|]. split; [exact T|].
   rewrite <- (mult_erase pa), M, mult_erase. reflexivity.
 Qed.
+
+(* ------------------------------------------------------------------ the reference reader's own electron count *)
+Lemma atomic_number_spec a : atomic_number a = spec_z (a_label a).
+Proof. unfold atomic_number, spec_z. rewrite periodic_eq. reflexivity. Qed.
+
+Lemma spec_electrons_model l : spec_electrons l = n_electrons l.
+Proof.
+  unfold n_electrons, spec_electrons, total_charge.
+  induction l as [|a l IH]; [reflexivity|]. cbn [fold_right]. rewrite IH, atomic_number_spec. lia.
+Qed.
+Lemma spec_mult_model l : spec_mult l = mult l.
+Proof. unfold spec_mult, mult. rewrite spec_electrons_model. reflexivity. Qed.
+
+Lemma spec_electrons_erase l : spec_electrons (map erase_stereo l) = spec_electrons l.
+Proof. rewrite !spec_electrons_model. apply n_electrons_erase. Qed.
+
+Lemma parse_charge_parity_respell_l k c da db :
+  chain_ok c = true -> denote c = Some (da, db) ->
+  exists pa pb, parse (spell (respell k c)) = Ok pa pb /\
+    total_charge pa = chain_charge c /\ mult pa = spec_mult da.
+Proof.
+  intros Hok Hd. destruct (parse_respell_denote_l k c da db Hok Hd) as [pa [pb [E [M _]]]].
+  exists pa, pb. split; [exact E|]. split.
+  - rewrite <- (total_charge_erase pa), M, total_charge_erase. apply (denote_charge c da db Hd).
+  - rewrite spec_mult_model. rewrite <- (mult_erase pa), M, mult_erase. reflexivity.
+Qed.
